@@ -369,6 +369,13 @@ pub fn expr_alts() -> Vec<EAlt> {
     v.push(atom("atom.address0_ne", |_| bin("NotEqual", "!=", 11, 11, 10, call(ty("address"), vec![num("0")]), var("q"))));
     v.push(atom("atom.eq_address1", |_| bin("Equal", "==", 11, 11, 10, var("q"), call(ty("address"), vec![num("1")]))));
     v.push(atom("atom.eq_address_empty", |_| bin("Equal", "==", 11, 11, 10, var("q"), call(ty("address"), vec![]))));
+    // zero-like operands that are not a call of address(...): No (8.2), except the bare 40-digit zero literal (gray)
+    for (nm, lit, hex) in [("zero", "0", false), ("hex0", "0x0", true), ("hex00", "0x00", true), ("hex64", "0x0000000000000000000000000000000000000000000000000000000000000000", true), ("hex40", "0x0000000000000000000000000000000000000000", true)] {
+        let mk = move || if hex { nodep("HexNumberLiteral", 0, vec![S(lit.to_string())]) } else { num(lit) };
+        v.push(atom(&format!("atom.eq_{}", nm), move |_| bin("Equal", "==", 11, 11, 10, var("q"), mk())));
+        v.push(atom(&format!("atom.{}_ne", nm), move |_| bin("NotEqual", "!=", 11, 11, 10, mk(), var("q"))));
+    }
+    v.push(atom("atom.eq_address_hex0", |_| bin("Equal", "==", 11, 11, 10, var("q"), call(ty("address"), vec![nodep("HexNumberLiteral", 0, vec![T("0x0")])]))));
     v.push(atom("atom.eq_plain", |_| bin("Equal", "==", 11, 11, 10, var("q"), var("r"))));
     v.push(atom("atom.eq_true", |_| bin("Equal", "==", 11, 11, 10, var("q"), nodep("BoolLiteral", 0, vec![T("true")]))));
     v.push(atom("atom.false_ne", |_| bin("NotEqual", "!=", 11, 11, 10, nodep("BoolLiteral", 0, vec![T("false")]), var("q"))));
